@@ -9,25 +9,59 @@ import (
 	astits "github.com/asticode/go-astits"
 )
 
+// typedGarbage switches genDescs to typed tags with garbage bodies. It is set only for the
+// duration of one GenModel call by the hostile-input generator (generation is single-threaded
+// per process and the flag is part of no verdict).
+var typedGarbage bool
+
 // StreamCfg are the swarm knobs of the reference stream generator.
 type StreamCfg struct {
-	ES        int  // elementary stream PIDs
-	PMT       int  // programs / PMT PIDs
-	SI        bool // SI PIDs 0x10/0x11/0x12/0x14
-	UnitsMin  int
-	UnitsMax  int
-	BigPES    bool // PES units longer than 16 packets
-	MultiSec  bool // PSI units of several sections
-	Bias      bool // start-code-biased payloads
-	Full184   bool // only 184-byte chunks (plus the necessarily shorter one)
-	NoAF      bool
-	MaxPES    int
-	PATRepeat int
-	BigPSI    bool // sections close to the 1021-byte limit (units of up to 6 packets)
-	Straddle  bool // spec-legal sections continued in the next payload_unit_start packet
+	ES           int  // elementary stream PIDs
+	PMT          int  // programs / PMT PIDs
+	SI           bool // SI PIDs 0x10/0x11/0x12/0x14
+	UnitsMin     int
+	UnitsMax     int
+	BigPES       bool // PES units longer than 16 packets
+	MultiSec     bool // PSI units of several sections
+	Bias         bool // start-code-biased payloads
+	Full184      bool // only 184-byte chunks (plus the necessarily shorter one)
+	NoAF         bool
+	MaxPES       int
+	PATRepeat    int
+	BigPSI       bool // sections close to the 1021-byte limit (units of up to 6 packets)
+	Straddle     bool // spec-legal sections continued in the next payload_unit_start packet
+	TypedGarbage bool // descriptors with typed tags and arbitrary bodies (hostile inputs only)
+}
+
+// typedTags are the descriptor tags the library has typed decoders for.
+var typedTags = []uint8{0x6a, 0x28, 0x50, 0x54, 0x06, 0x7a, 0x4e, 0x7f, 0x0a, 0x58, 0x0e, 0x40, 0x55, 0x0f, 0x5f, 0x05, 0x48, 0x4d, 0x52, 0x59, 0x56, 0x45, 0x46}
+
+// genDescsTyped draws descriptors with typed tags and arbitrary bodies of arbitrary length:
+// well-framed for the loop they sit in, garbage for the decoder their tag selects.
+func genDescsTyped(r *core.PRNG, max int) []refts.Desc {
+	n := r.Pick(2, 3, 2)
+	var ds []refts.Desc
+	for i := 0; i < n; i++ {
+		l := r.Pick(3, 3, 3, 2)
+		switch l {
+		case 0:
+			l = r.Range(0, 3)
+		case 1:
+			l = r.Range(4, 8)
+		case 2:
+			l = r.Range(9, max+9)
+		default:
+			l = 0
+		}
+		ds = append(ds, refts.Desc{Tag: typedTags[r.Intn(len(typedTags))], Data: r.Bytes(l)})
+	}
+	return ds
 }
 
 func genDescs(r *core.PRNG, max int) []refts.Desc {
+	if typedGarbage {
+		return genDescsTyped(r, max)
+	}
 	n := r.Pick(5, 3, 1)
 	var ds []refts.Desc
 	for i := 0; i < n; i++ {
@@ -204,6 +238,8 @@ func genUnitAF(r *core.PRNG) *refts.AF {
 
 // GenModel draws a well-formed transport stream model.
 func GenModel(r *core.PRNG, cfg StreamCfg) *refts.Model {
+	typedGarbage = cfg.TypedGarbage
+	defer func() { typedGarbage = false }()
 	m := &refts.Model{}
 	tag := 1
 	nextTag := func() int { tag++; return tag }
@@ -476,51 +512,92 @@ func packetCounts(m *refts.Model) (n []int) {
 	return
 }
 
-// GenMerge draws an order-preserving multiplex schedule. If stream 0 is the PAT its first
-// unit is emitted completely before anything else (PMTs are only recognised after their PAT).
+// GenMerge draws an order-preserving multiplex schedule. PMT PIDs are only recognised after a
+// PAT listing them has been delivered, so packets of PMT streams wait until the first PAT unit
+// is complete; every other stream (ES, SI, the PAT itself) may start at once. With straddle,
+// one multi-packet first PMT unit is allowed to begin before the PAT and finish after it (it
+// is complete, and must be delivered, only after the PAT).
 // mode: 0 uniform, 1 bursty, 2 starvation of one stream, 3 reverse priority.
 func GenMerge(r *core.PRNG, m *refts.Model, mode int) []int {
 	counts := packetCounts(m)
 	left := append([]int{}, counts...)
 	var picks []int
-	if len(m.Streams) > 0 && m.Streams[0].Kind == "PAT" && len(m.Streams[0].Units) > 0 {
-		for i := 0; i < len(m.Streams[0].Units[0].Chunks); i++ {
-			picks = append(picks, 0)
-			left[0]--
+	patIdx := -1
+	patLeft := 0
+	for i, s := range m.Streams {
+		if s.Kind == "PAT" && len(s.Units) > 0 {
+			patIdx = i
+			patLeft = len(s.Units[0].Chunks)
+		}
+	}
+	// budget of packets a PMT stream may send before the PAT is complete
+	early := make([]int, len(m.Streams))
+	if patIdx >= 0 && r.Chance(1, 6) {
+		for i, s := range m.Streams {
+			if s.Kind == "PMT" && len(s.Units) > 0 && len(s.Units[0].Chunks) >= 2 && s.Units[0].Straddle == 0 {
+				early[i] = r.Range(1, len(s.Units[0].Chunks)-1)
+				break
+			}
 		}
 	}
 	total := 0
 	for _, c := range left {
 		total += c
 	}
+	eligible := func(i int) bool {
+		if left[i] == 0 {
+			return false
+		}
+		if patIdx >= 0 && patLeft > 0 && m.Streams[i].Kind == "PMT" {
+			return counts[i]-left[i] < early[i]
+		}
+		return true
+	}
 	starved := r.Intn(len(m.Streams) + 1)
 	cur, burst := -1, 0
 	for total > 0 {
+		var cand []int
+		for i := range left {
+			if eligible(i) {
+				cand = append(cand, i)
+			}
+		}
+		if len(cand) == 0 {
+			cand = []int{patIdx}
+		}
 		var s int
 		switch mode {
 		case 1:
-			if burst > 0 && cur >= 0 && left[cur] > 0 {
+			if burst > 0 && cur >= 0 && eligible(cur) {
 				s = cur
 				burst--
 			} else {
-				s = pickLeft(r, left, -1)
+				s = cand[r.Intn(len(cand))]
 				cur, burst = s, r.Range(1, 12)
 			}
 		case 2:
-			s = pickLeft(r, left, starved)
+			s = cand[r.Intn(len(cand))]
+			if s == starved && len(cand) > 1 {
+				s = cand[(indexOf(cand, s)+1)%len(cand)]
+			}
 		case 3:
-			s = -1
-			for k := len(left) - 1; k >= 0; k-- {
-				if left[k] > 0 && (s < 0 || r.Chance(1, 4)) {
-					s = k
-				}
+			s = cand[len(cand)-1]
+			if r.Chance(1, 4) {
+				s = cand[r.Intn(len(cand))]
 			}
 		default:
-			s = pickLeft(r, left, -1)
+			s = cand[r.Intn(len(cand))]
+		}
+		// keep the PAT from being starved forever while PMT streams wait for it
+		if patIdx >= 0 && patLeft > 0 && r.Chance(1, 3) {
+			s = patIdx
 		}
 		picks = append(picks, s)
 		left[s]--
 		total--
+		if s == patIdx && patLeft > 0 {
+			patLeft--
+		}
 	}
 	return picks
 }
